@@ -41,3 +41,18 @@ Theorem c19_naive_join_refuted :
   split_host_port (join_host_port [58; 58; 49]%N default_port) = Some ([58; 58; 49]%N, default_port).
 Proof. exact naive_join_refuted. Qed.
 Print Assumptions c19_refuse.
+
+(* "... and hands to clients": what a client is handed for a host comes out of the store's answer
+   to the candidate query.  In every reachable state of the store, every entry of that answer is
+   the record the store holds for the id the entry carries — the record written at that node's
+   own registration, with the address normalised there (c19_identity, c19_address) — and never a
+   record assembled from another node's fields.  Both drivers are compared with this model on
+   every ActiveHosts call of every history (C12), and the entries handed to clients are read back
+   against each node's own registration in the `handed-out` populations. *)
+From VP Require Import Nonce Store StoreProofs HandedOut.
+Theorem c19_handed_out_is_own_record : forall X E ops now kind limit elig lim nd,
+  let st := srun X E s0 ops in
+  snd (sstep X E now st (ActiveHosts kind limit)) = RHosts elig lim -> In nd elig ->
+  aget (n_id nd) (s_nodes st) = Some nd /\ eligible_host X now kind nd = true.
+Proof. exact hosts_handed_out_are_own_records. Qed.
+Print Assumptions c19_handed_out_is_own_record.
